@@ -41,6 +41,7 @@ def spec_tables():
     return _SPEC
 
 
+MASK = {"_valid_special_properties_flags": 0x1F, "_valid_unit_properties_flags": 0x3F, "_flags": 0x1F}
 UNSUPPORTED_ACTIONS = [7, 29, 30, 31, 41, 47, 58, 59]
 UNSUPPORTED_CONDITIONS = [13]
 ACTION_FIELDS = [f for f, _ in S.ACTION[2]]
@@ -358,7 +359,8 @@ class SpecView:
         if self.cuwps is None or not (1 <= cid <= 64):
             return ("no-cuwp", cid)
         c = self.cuwps[cid - 1]
-        return tuple(sorted(c.items()))
+        # what the game reads of a slot: the defined bits of the flag words; the owner byte is "always NULL"
+        return tuple(sorted((f, v & MASK.get(f, 0xFFFFFFFF)) for f, v in c.items() if f != "_owner_player"))
 
     def switch(self, k):
         return (k, self.text(self.swnm[k]) if self.swnm and k < 256 else None)
@@ -410,3 +412,99 @@ class SpecView:
                 break
             out.append(e)
         return out
+
+
+# ---- what StarCraft reads, compared before / after ----------------------------------------------------------------
+
+
+def semantic_diff(before: bytes, after: bytes):
+    """list of (finding key or None, description) for every difference in what the game reads"""
+    out = []
+    vb, va = SpecView(before), SpecView(after)
+    nb = [n for n, _ in vb.chunks]
+    na = [n for n, _ in va.chunks]
+    if na[:len(nb)] != nb:
+        out.append((None, f"section order / names changed: {nb} -> {na}"))
+        return out
+    for n, p in va.chunks[len(nb):]:
+        empty_optional = n in (b"SWNM", b"UPRP", b"UPUS") and n not in vb.by_name and not any(p)
+        # a slot-usage table appended because the map had none, agreeing with the slots in use, says nothing new
+        consistent_upus = (n == b"UPUS" and b"UPUS" not in vb.by_name and vb.cuwps is not None and len(p) == 64
+                           and list(p) == [1 if any(c.values()) else 0 for c in vb.cuwps])
+        if not (empty_optional or consistent_upus):
+            out.append((None, f"section {n!r} appended with content"))
+    for i, ((n, p), (_, q)) in enumerate(zip(vb.chunks, va.chunks)):
+        if len(p) != len(q):
+            if n == b"MRGN" and len(p) == 1280 and len(q) == 5100 and not any(q[1280:]):
+                out.append(("mrgn-64-slots", "64-slot MRGN re-emitted with 255 slots"))
+            elif n == b"STR ":
+                pass  # judged through the resolved texts below
+            else:
+                out.append((None, f"section {i} {n!r} changed size {len(p)} -> {len(q)}"))
+        elif n not in (b"STR ", b"MRGN", b"TRIG", b"UPRP", b"UPUS", b"SWNM", b"WAV ", b"UNIS", b"UNIx") and p != q:
+            out.append((None, f"section {i} {n!r} (no rich model) changed"))
+    # locations
+    for k in range(min(len(vb.locs), len(va.locs))):
+        if vb.location(k + 1) != va.location(k + 1):
+            out.append((None, f"location {k + 1}: {vb.location(k + 1)} -> {va.location(k + 1)}"))
+    # unit properties
+    if vb.cuwps is not None:
+        for k in range(64):
+            a = {f: v & MASK.get(f, 0xFFFFFFFF) for f, v in vb.cuwps[k].items() if f not in ("_owner_player",)}
+            b = {f: v & MASK.get(f, 0xFFFFFFFF) for f, v in (va.cuwps[k] if va.cuwps else {}).items() if f not in ("_owner_player",)}
+            if a != b:
+                out.append((None, f"unit-property slot {k + 1}: {a} -> {b}"))
+    # switch names, sounds
+    if vb.swnm is not None:
+        for k in range(256):
+            if vb.switch(k)[1] != va.switch(k)[1] and (vb.switch(k)[1] or va.switch(k)[1]):
+                out.append((None, f"switch {k} name {vb.switch(k)[1]!r} -> {va.switch(k)[1]!r}"))
+    for nm, sp in ((b"WAV ", "WAV "),):
+        if nm in vb.by_name and len(vb.by_name[nm][-1]) == 2048 and nm in va.by_name:
+            wb = S.spec_parse(S.SPEC_FULL[sp], vb.by_name[nm][-1], 0)[0]["_wav_string_ids"]
+            wa = S.spec_parse(S.SPEC_FULL[sp], va.by_name[nm][-1], 0)[0]["_wav_string_ids"]
+            for k in range(512):
+                if vb.text(wb[k]) != va.text(wa[k]):
+                    out.append((None, f"sound slot {k}: {vb.text(wb[k])!r} -> {va.text(wa[k])!r}"))
+    # unit settings
+    for nm in (b"UNIS", b"UNIx"):
+        if nm in vb.by_name and nm in va.by_name and len(vb.by_name[nm][-1]) == len(va.by_name[nm][-1]):
+            sp = S.SPEC_FULL[nm.decode()]
+            if len(vb.by_name[nm][-1]) != S.spec_size(sp):
+                continue
+            ub = S.spec_parse(sp, vb.by_name[nm][-1], 0)[0]
+            ua = S.spec_parse(sp, va.by_name[nm][-1], 0)[0]
+            for f in ub:
+                for k, (x, y) in enumerate(zip(ub[f], ua[f])):
+                    if f == "_unit_string_ids":
+                        x, y = vb.text(x), va.text(y)
+                    if f == "_unit_default_settings_flags":
+                        x, y = int(bool(x)), int(bool(y))
+                    if x != y:
+                        if f in ("_unit_base_weapon_damages", "_unit_upgrade_weapon_damages") and k not in carried_weapons() and y == 0:
+                            out.append(("orphan-weapons-zeroed", f"{nm.decode()} weapon {k} {f}: {x} -> 0"))
+                        else:
+                            out.append((None, f"{nm.decode()} {f}[{k}]: {x} -> {y}"))
+    # triggers
+    tb, ta = vb.triggers(), va.triggers()
+    if len(tb) != len(ta):
+        out.append((None, f"{len(tb)} triggers -> {len(ta)}"))
+    for k, (x, y) in enumerate(zip(tb, ta)):
+        if x["players"] != y["players"] or x["exec"] != y["exec"]:
+            out.append((None, f"trigger {k}: execution data changed"))
+        for part in ("conditions", "actions"):
+            ex, ey = vb.executed(x[part]), va.executed(y[part])
+            if ex == ey:
+                continue
+            strip = lambda es: [({k2: v for k2, v in e.items() if k2 != "_unused"} if isinstance(e, dict) else e) for e in es]  # noqa
+            sx, sy = strip(ex), strip(ey)
+            if sx == sy:
+                out.append(("unused-fields-zeroed", f"trigger {k} {part}: fields the type does not use were zeroed"))
+            elif len(sy) > len(sx) and sy[:len(sx)] == sx:
+                out.append(("interior-gap-compacted", f"trigger {k} {part}: entries after an empty entry became executable"))
+                if ex != ey[:len(ex)]:
+                    out.append(("unused-fields-zeroed", f"trigger {k} {part}: fields the type does not use were zeroed"))
+            else:
+                j = next((i for i, (p1, p2) in enumerate(zip(sx, sy)) if p1 != p2), min(len(sx), len(sy)))
+                out.append((None, f"trigger {k} {part}[{j}]: {str(sx[j] if j < len(sx) else None)[:160]} -> {str(sy[j] if j < len(sy) else None)[:160]}"))
+    return out
